@@ -36,7 +36,7 @@ fn run_case(c: &Case) -> Result<u64, (String, String)> {
     m.pokes.push((0x3000, c.word)); m.pokes.push((0x3001, 0xF025));
     for (k, w) in c.string_words.iter().enumerate() { m.pokes.push((STR_AT + k as u16, *w)); }
     m.pokes.push((STR_AT + c.string_words.len() as u16, 0x0000));
-    let mut what = format!("{:?} (real_traps={} ignore_privilege={}) regs#{} cc x{:04X} string {:x?} keyboard {:x?}", c.trap, c.real, c.ignore_priv, c.regset, CCS[c.cc], c.string_words, c.kb);
+    let mut what = format!("{:?} (real_traps={} ignore_privilege={}) regs#{} cc x{:04X} string {} keyboard {:x?}", c.trap, c.real, c.ignore_priv, c.regset, CCS[c.cc], if c.string_words.len() > 16 { format!("{} words starting {:x?}", c.string_words.len(), &c.string_words[..8]) } else { format!("{:x?}", c.string_words) }, c.kb);
     if let Some(i) = c.irq {
         // an interrupt service routine that uses the supervisor stack like any other (pushes R0, R1; pops them; RTI)
         static ISR: std::sync::OnceLock<Vec<(u16, u16)>> = std::sync::OnceLock::new();
@@ -62,7 +62,7 @@ fn run_case(c: &Case) -> Result<u64, (String, String)> {
         if p.sim.pc == 0x3001 && !p.sim.psr().privileged() { break; }
         if (p.sim.pc, p.sim.instructions_run) == before { stopped = true; break; } // virtual HALT parks the machine
         if c.real && !p.sim.mcr().load(std::sync::atomic::Ordering::Relaxed) && c.trap == Trap::Halt && steps > 3 { stopped = true; break; }
-        if steps > 20_000 { return Err(("trap-does-not-return".into(), format!("{what}: no return after {steps} steps (pc x{:04X})", p.sim.pc))); }
+        if steps > 20_000 + 60 * c.expected_out.len() as u64 { return Err(("trap-does-not-return".into(), format!("{what}: no return after {steps} steps (pc x{:04X})", p.sim.pc))); }
     }
     let disp: Vec<u8> = { let g = p.disp.get_buffer().read().unwrap_or_else(|e| e.into_inner()); g.clone() };
     let kb_left: Vec<u8> = p.kb.get_buffer().read().unwrap_or_else(|e| e.into_inner()).iter().copied().collect();
@@ -71,7 +71,7 @@ fn run_case(c: &Case) -> Result<u64, (String, String)> {
         return Ok(steps);
     }
     if stopped { return Err(("trap-stops-machine".into(), format!("{what}: machine stopped inside the trap"))); }
-    if disp != c.expected_out { return Err((format!("output:{:?}", c.trap), format!("{what}: display {disp:x?}, expected {:x?}", c.expected_out))); }
+    if disp != c.expected_out { return Err((format!("output:{:?}", c.trap), if disp.len() > 64 || c.expected_out.len() > 64 { let at = disp.iter().zip(c.expected_out.iter()).position(|(a, b)| a != b).unwrap_or(disp.len().min(c.expected_out.len())); format!("{what}: display has {} bytes, expected {}; first difference at byte {at}", disp.len(), c.expected_out.len()) } else { format!("{what}: display {disp:x?}, expected {:x?}", c.expected_out) })); }
     let consumed = match c.trap { Trap::Getc | Trap::In => 1, _ => 0 };
     if kb_left != c.kb[consumed..] { return Err((format!("input-consumed:{:?}", c.trap), format!("{what}: keyboard queue left {kb_left:x?}, expected {:x?}", &c.kb[consumed..]))); }
     for i in 0..8 {
@@ -116,10 +116,23 @@ fn cases(ctx: &Ctx) -> Vec<Case> {
         }
         v.push(Case { poison: 0, irq: None, trap: Trap::Halt, word: 0xF025, r0_low: 0, string_words: vec![], expected_out: vec![], kb: vec![0x41], regset, cc, real, ignore_priv });
     } } }
+    // scale: output past 2^15 and 2^16 bytes in one call (PUTSP of a packed string of 32767 .. 70001 characters; PUTS of 32768 and 40000 words)
+    for real in [false, true] {
+        for n in [32767usize, 32768, 65535, 65536, 65537, 70001] {
+            let b: Vec<u8> = (0..n).map(|k| 0x41 + (k % 26) as u8).collect();
+            let words: Vec<u16> = b.chunks(2).map(|c| c[0] as u16 | (c.get(1).copied().unwrap_or(0) as u16) << 8).collect();
+            v.push(Case { poison: 0, irq: None, trap: Trap::Putsp, word: 0xF024, r0_low: 0, expected_out: b, string_words: words, kb: vec![], regset: 0, cc: 1, real, ignore_priv: false });
+        }
+        for n in [32768usize, 40000] {
+            let s: Vec<u16> = (0..n).map(|k| 0x0100 | (0x61 + (k % 26) as u16)).collect();
+            v.push(Case { poison: 0, irq: None, trap: Trap::Puts, word: 0xF022, r0_low: 0, expected_out: s.iter().map(|w| *w as u8).collect(), string_words: s, kb: vec![0x41], regset: 0, cc: 1, real, ignore_priv: false });
+        }
+    }
     // the same contracts with one interrupt taken at every instruction boundary of the call (the OS routines share the supervisor
     // stack with interrupt entry and the ISR): quick: regs#0, cc Z, short arguments; thorough: every regset
     let mut w = vec![];
     for c in &v {
+        if c.string_words.len() > 1000 { continue; }
         let short = match c.trap { Trap::Getc | Trap::In => c.kb.len() == 1 && c.kb[0] == 0x41, Trap::Out => c.r0_low == 0x41 && c.kb.is_empty(), Trap::Puts => c.string_words == [0x0041, 0x00FF], Trap::Putsp => c.string_words == [0x4101, 0x0080] || c.string_words == [0x4141], Trap::Halt => false };
         if !short || c.ignore_priv || c.cc != 1 || (c.regset != 0 && !ctx.thorough()) { continue; }
         let Ok(n) = run_case(c) else { continue };
